@@ -56,6 +56,8 @@ f("no-space", "clr%0", "error", "parse", (0, "%0"))
 f("neg-bad-digit", ".word -8", "error", "parse", (0, "-8"))
 f("bad-escape", ".ascii \"\\q\"", "error", "parse", (0, "\\q"))
 f("long-rad50-lit", ".word ^RABCD", "error", "parse", (0, "^RABCD"))
+f("bad-hex-escape", ".ascii \"a\\xg1\"", "error", "parse", (0, "\\x"))
+f("empty-rad50-lit", ".word ^R", "error", "parse", (0, "^R"))
 # ---- parse-time, critical (abort the run) ----------------------------------------------------------------------
 f("unclosed-paren", "mov r0, (r1", "error", "parse-critical", None)
 f("unterminated-string", ".ascii \"abc", "error", "parse-critical", (0, "\"abc"))
